@@ -15,7 +15,7 @@
 use std::collections::HashSet;
 
 use swimos_api::agent::{Agent, BoxAgent};
-use swimos_introspection::{lane_pattern, node_pattern};
+use swimos_introspection::{lane_pattern, mesh_pattern, node_pattern};
 use swimos_model::Text;
 use swimos_utilities::routing::RoutePattern;
 
@@ -30,20 +30,27 @@ pub struct PlaneModel {
 
 impl PlaneModel {
     pub fn check_meta_collisions(&self) -> Result<(), AmbiguousRoutes> {
+        let mesh = mesh_pattern();
         let node = node_pattern();
         let lane = lane_pattern();
         let mut meta = vec![];
         let mut routes = vec![];
+        let mut mesh_collision = false;
         let mut node_collision = false;
         let mut lane_collision = false;
         for (pattern, _) in &self.routes {
+            let with_mesh = RoutePattern::are_ambiguous(&mesh, pattern);
             let with_node = RoutePattern::are_ambiguous(&node, pattern);
             let with_lane = RoutePattern::are_ambiguous(&lane, pattern);
+            mesh_collision = mesh_collision || with_mesh;
             node_collision = node_collision || with_node;
             lane_collision = lane_collision || with_lane;
-            if with_node || with_lane {
+            if with_mesh || with_node || with_lane {
                 routes.push(pattern.clone());
             }
+        }
+        if mesh_collision {
+            meta.push(mesh);
         }
         if node_collision {
             meta.push(node);
